@@ -15,7 +15,7 @@ DEPENDS = {
     'C07': [('C19', ['as_list']), ('C01', ['__len__', '__getitem__.tuple', '__getitem__.column', 'constructor'])],
     'C08': [('C19', ['as_list'])],
     'C10': [('C04', ['dt']), ('C09', ['dt_bump'])],
-    'C11': [('C07', CMP), ('C01', ['__getitem__.tuple', '__getitem__.column', 'constructor', 'dict_concat', '__iter__', '__len__'])],
+    'C11': [('C07', CMP), ('C01', ['__getitem__.tuple', '__getitem__.column', 'constructor', 'dict_concat', '__iter__', '__len__', 'get']), ('C19', ['as_list', 'lens'])],
     'C12': [('C19', ['as_list'])],
     'C13': [('C19', LISTS)],
     'C15': [('C14', ['axiom validation', 'eq', 'in_'])],
